@@ -125,21 +125,29 @@ namespace rkcommon {
     inline IntrusivePtr<T> &IntrusivePtr<T>::operator=(
         const IntrusivePtr &input)
     {
-      if (input.ptr)
-        input.ptr->refInc();
-      if (ptr)
-        ptr->refDec();
-      ptr = input.ptr;
+      // 'input' may live inside the object released below (e.g. 'head =
+      // head->next'): read it once, and release the old object last
+      T *const in = input.ptr;
+      if (in)
+        in->refInc();
+      T *const old = ptr;
+      ptr = in;
+      if (old)
+        old->refDec();
       return *this;
     }
 
     template <typename T>
     inline IntrusivePtr<T> &IntrusivePtr<T>::operator=(IntrusivePtr &&input)
     {
-      if (ptr)
-        ptr->refDec();
-      ptr = input.ptr;
+      // take over input's reference before releasing the old object, which
+      // may own 'input' (e.g. 'head = std::move(head->next)')
+      T *const in = input.ptr;
       input.ptr = nullptr;
+      T *const old = ptr;
+      ptr = in;
+      if (old)
+        old->refDec();
       return *this;
     }
 
